@@ -92,6 +92,8 @@ class SyncDispatcher:
     """Synchronous replacement of ProtocolDispatcher (same public operations), installed from outside for handler-level
     tests: trigger_receiver runs the receiver target now, queue_block dispatches now, on the calling thread."""
 
+    stopping = False        # (the real dispatcher's flag 'the threads are being stopped': never, nothing runs in threads here)
+
     def __init__(self, protocol):
         self._p = protocol
         self.started = 0
